@@ -22,7 +22,8 @@ PROBES = {
             "x_consuming_forecaster"],
     "C08": ["tie_in_best_score", "greater_is_better", "nested_param_names", "multiplexer_grid",
             "randomized_search", "refit_false", "interleave_schedule", "pre_dispatch_window",
-            "lockstep_history_checked", "sibling_schedule_checked"],
+            "lockstep_history_checked", "sibling_schedule_checked", "list_of_grids",
+            "random_state_instance", "tie_not_involving_first"],
 }
 FAULT_KINDS = {
     "C07": ["clock_jump_fwd", "clock_jump_back"],
@@ -155,6 +156,14 @@ def generate(prop, rng, tier):
             grid["sp"] = [1, 2]
             grid["strategy"] = [s for s in grid["strategy"] if s != "drift"] or ["last"]
             grid["window_length"] = [4, 6]
+        r2 = rng.random()
+        if r2 < 0.15:
+            # 'last' ignores window_length: an exact tie that does not involve candidate 0
+            grid = {"strategy": ["mean", "last"], "window_length": rng.sample([2, 3, 5, 6], 2)}
+        elif r2 < 0.3:
+            # several grids with different keys
+            grid = [{"strategy": ["mean"], "window_length": rng.sample([3, 4, 8], 2)},
+                    {"strategy": rng.sample(["last", "drift"], rng.randint(1, 2))}]
     elif base_kind == "ttf":
         base = {"kind": "ttf", "transformers": [{"kind": "deseason", "sp": 2, "model": "additive"}],
                 "forecaster": {"kind": "naive", "strategy": "last", "sp": 1, "window_length": None}}
@@ -179,7 +188,8 @@ def generate(prop, rng, tier):
     search = "grid" if rng.random() < 0.75 else "random"
     return {
         "base": base, "grid": grid, "search": search, "n_iter": rng.randint(2, 5),
-        "search_rs": rng.randint(0, 99), "cv": cv, "n": n,
+        "search_rs": rng.randint(0, 99), "search_rs_kind": rng.choice(["int", "int", "instance"]),
+        "cv": cv, "n": n,
         "series": {"seed": rng.randint(0, 10 ** 6), "origin": rng.choice([0, 0, 7, 100]),
                    "index": rng.choice(["range", "range", "int"]), "sp": rng.choice([2, 3, 4])},
         "metric": rng.choice([None, "smape", "mape", "mse", "asym", "neg_mae", "skill", "neg_mae",
@@ -415,7 +425,14 @@ def _candidates(scen):
     from sklearn.model_selection import ParameterGrid, ParameterSampler
     if scen["search"] == "grid":
         return list(ParameterGrid(scen["grid"]))
-    return list(ParameterSampler(scen["grid"], scen["n_iter"], random_state=scen["search_rs"]))
+    return list(ParameterSampler(scen["grid"], scen["n_iter"], random_state=_search_rs(scen)))
+
+
+def _search_rs(scen):
+    """random_state as the user passes it: an int, or a (fresh) RandomState instance."""
+    if scen.get("search_rs_kind") == "instance":
+        return np.random.RandomState(scen["search_rs"])
+    return scen["search_rs"]
 
 
 def _make_tuner(scen, n_jobs, pre_dispatch="same"):
@@ -431,7 +448,7 @@ def _make_tuner(scen, n_jobs, pre_dispatch="same"):
     if scen["search"] == "grid":
         return ForecastingGridSearchCV(base, cv, scen["grid"], **kw)
     return ForecastingRandomizedSearchCV(base, cv, scen["grid"], n_iter=scen["n_iter"],
-                                         random_state=scen["search_rs"], **kw)
+                                         random_state=_search_rs(scen), **kw)
 
 
 def execute_c08(scen):
@@ -482,8 +499,13 @@ def execute_c08(scen):
     greater = scen["metric"] in GREATER
     if greater:
         res.probe("greater_is_better")
-    if any("__" in k for k in scen["grid"]):
+    grids = scen["grid"] if isinstance(scen["grid"], list) else [scen["grid"]]
+    if any("__" in k for g in grids for k in g):
         res.probe("nested_param_names")
+    if isinstance(scen["grid"], list):
+        res.probe("list_of_grids")
+    if scen["search"] == "random" and scen.get("search_rs_kind") == "instance":
+        res.probe("random_state_instance")
     if scen["base"]["kind"] == "mux":
         res.probe("multiplexer_grid")
     if scen["search"] == "random":
@@ -535,6 +557,8 @@ def execute_c08(scen):
     n_best = int(np.sum(np.isclose(means, best, rtol=1e-12, atol=1e-15)))
     if n_best > 1:
         res.probe("tie_in_best_score")
+        if not np.isclose(means[0], best, rtol=1e-12, atol=1e-15):
+            res.probe("tie_not_involving_first")
     bi = int(tuner.best_index_)
     if not np.isclose(means[bi], best, rtol=1e-12, atol=1e-15):
         v("best_is_not_best", "best_index_=%d has mean %s %.10g but candidate %d attains %.10g "
@@ -672,7 +696,10 @@ def shrink_candidates(prop, scen):
         if s["cv"]["step"] < 5:
             yield dict(s, cv=dict(s["cv"], step=5))
         return
-    for key in list(s["grid"]):
+    if isinstance(s["grid"], list):
+        for g in s["grid"]:
+            yield dict(s, grid=g)
+    for key in (list(s["grid"]) if isinstance(s["grid"], dict) else []):
         if len(s["grid"][key]) > 1:
             for cand in ddmin_list(s["grid"][key]):
                 if cand:
